@@ -432,6 +432,514 @@ fn part_corr(o: &mut Outcome, rng: &mut Rng, thorough: bool) {
     o.count_n("lexer:random-compared", compared);
 }
 
+// ------------------------------------------------------------------------------------------------
+// part 2: search on the real formatter
+
+/// Templates: small programs with hole markers `@TAG@` at the comment positions the property names.
+/// Tags (first letter = construct: I item, S statement, F struct field, V enum variant, M match arm,
+/// P fn parameter, A call argument; second letter = position):
+///   ?B  on its own line before the element          ?T  at the end of the element's line
+///   ?I  inline before an element of a one-line list ?L  inline after the last element of a one-line list
+///   ?E  on its own line after the last element, before the closing delimiter
+/// `@X{@ … @X}@` brackets a body statement: every token boundary inside it becomes an `X` hole.
+const TEMPLATES: &[(&str, &str)] = &[
+    ("items", "@IB@const A: u32 = 1;@IT@\n@IB@static B: u32 = 2;@IT@\n@IB@type T = u32;@IT@\n@IB@fn f0() {}@IT@\n\n@IB@struct U;@IT@\n@IB@mod m {@IT@\n    @IB@fn g() {}@IT@\n    @IB@fn h() {}@IT@\n@IE@}@IT@\n@IB@impl S {@IT@\n    @IB@fn a(&self) {}@IT@\n    @IB@const K: u32 = 1;@IT@\n    @IB@fn b(&self) {}@IT@\n@IE@}@IT@\n@IB@trait Tr {@IT@\n    @IB@fn a(&self);@IT@\n    @IB@type X;@IT@\n@IE@}@IT@\n@IB@enum En {\n    A,\n}@IT@\n@IE@"),
+    ("stmts", "fn f1(p: u32) -> u32 {@ST@\n    @SB@let a = 1;@ST@\n    @SB@let b = p + a;@ST@\n    @SB@call(a, b);@ST@\n    @SB@if a > b {@ST@\n        @SB@call(b, a);@ST@\n    @SE@} else {@ST@\n        @SB@call(a, a);@ST@\n    @SE@}@ST@\n    @SB@for i in 0..a {@ST@\n        @SB@call(i, i);@ST@\n    @SE@}@ST@\n    @SB@let c = |x: u32| {@ST@\n        @SB@x + 1@ST@\n    @SE@};@ST@\n    @SB@loop {@ST@\n        @SB@break;@ST@\n    @SE@}@ST@\n    @SB@a + b@ST@\n@SE@}\n"),
+    ("fields", "struct S1 {@FT@\n    @FB@a: u32,@FT@\n    @FB@pub b: Vec<u32>,@FT@\n    @FB@c: (u32, u32),@FT@\n@FE@}\n\nstruct S2 { @FI@a: u32, @FI@b: u32, @FI@c: u32@FL@ }\n\nstruct S3(@FI@u32, @FI@pub u64, @FI@String@FL@);\n\nstruct S4(\n    @FB@u32,@FT@\n    @FB@u64,@FT@\n@FE@);\n\npub struct S5<T> {\n    @FB@x: T,@FT@\n    @FB@y: Option<T>@FT@\n@FE@}\n"),
+    ("variants", "enum E1 {@VT@\n    @VB@A,@VT@\n    @VB@B(u32),@VT@\n    @VB@C { x: u32 },@VT@\n    @VB@D@VT@\n@VE@}\n\nenum E2 { @VI@A, @VI@B, @VI@C@VL@ }\n\nenum E3 {\n    @VB@P = 1,@VT@\n    @VB@Q = 2,@VT@\n@VE@}\n"),
+    ("arms", "fn f2(x: u32) -> u32 {\n    match x {@MT@\n        @MB@0 => 1,@MT@\n        @MB@1 | 2 => call(x, x),@MT@\n        @MB@3 => {@MT@\n            call(x, 1)\n        }@MT@\n        @MB@n if n > 5 => n,@MT@\n        @MB@_ => 0,@MT@\n    @ME@}\n}\n\nfn f5(x: Option<u32>) {\n    match x {\n        @MB@Some(v) => call(v, v),@MT@\n        @MB@None => {}@MT@\n    @ME@}\n}\n"),
+    ("params", "fn p1(@PI@a: u32, @PI@b: u32, @PI@c: u32@PL@) {}\n\nfn p2(\n    @PB@a: u32,@PT@\n    @PB@b: u32,@PT@\n    @PB@c: u32,@PT@\n@PE@) -> u32 {\n    a\n}\n\nimpl S {\n    fn p3(@PI@&self, @PI@a: u32@PL@) {}\n    fn p4(\n        @PB@&mut self,@PT@\n        @PB@key: &str,@PT@\n    @PE@) {\n    }\n}\n\ntrait T {\n    fn p5(@PI@&self, @PI@a: u32@PL@);\n}\n"),
+    ("args", "fn f3() {\n    call(@AI@1, @AI@2, @AI@3@AL@);\n    call(\n        @AB@alpha,@AT@\n        @AB@beta,@AT@\n        @AB@gamma,@AT@\n    @AE@);\n    let v = x.method(@AI@a, @AI@b@AL@);\n    let w = x.method(\n        @AB@a,@AT@\n        @AB@b,@AT@\n    @AE@).other();\n    let t = S::new(@AI@1, @AI@call(@AI@2, @AI@3@AL@)@AL@);\n}\n"),
+    ("inside1", "fn f4(a: u32, b: u32) -> u32 {\n    @X{@let x = a + b * 2;@X}@\n    @X{@let y: Vec<u32> = vec.iter().map(|v| v + 1).collect();@X}@\n    @X{@let S { p, q } = s;@X}@\n    @X{@x = if a > b { a } else { b };@X}@\n    @X{@call(a, b)?;@X}@\n    @X{@return foo.bar(a).baz(b, c);@X}@\n}\n"),
+    ("inside2", "fn f6(a: u32, b: u32) {\n    @X{@let z = match a { 0 => 1, _ => 2 };@X}@\n    @X{@let arr = [1, 2, 3];@X}@\n    @X{@let tup = (a, b);@X}@\n    @X{@let s = S { p: 1, q: 2 };@X}@\n    @X{@let r = &mut x[1..2];@X}@\n    @X{@let c = a as u64;@X}@\n}\n"),
+    ("inside3", "fn f7(mut a: u32, b: u32) {\n    @X{@while a < b { a += 1; }@X}@\n    @X{@let cl = move |q: u32| -> u32 { q + 1 };@X}@\n    @X{@let u = unsafe { f() };@X}@\n    @X{@x.y.z = !w && (a || b);@X}@\n    @X{@println!(\"{}\", a);@X}@\n    @X{@let n = -a;@X}@\n}\n"),
+];
+
+#[derive(Clone, Debug)]
+struct Hole {
+    tag: String,
+    /// byte offset in the stripped template
+    pos: usize,
+}
+
+struct Template {
+    name: &'static str,
+    text: String,
+    holes: Vec<Hole>,
+    /// X regions (byte ranges of the stripped text)
+    regions: Vec<(usize, usize)>,
+}
+
+fn parse_template(name: &'static str, t: &str) -> Template {
+    let mut text = String::new();
+    let mut holes = vec![];
+    let mut regions = vec![];
+    let mut open: Option<usize> = None;
+    let mut rest = t;
+    while let Some(i) = rest.find('@') {
+        text.push_str(&rest[..i]);
+        let after = &rest[i + 1..];
+        let j = after.find('@').expect("unterminated marker");
+        let tag = &after[..j];
+        match tag {
+            "X{" => open = Some(text.len()),
+            "X}" => regions.push((open.take().expect("X} without X{"), text.len())),
+            _ => holes.push(Hole { tag: tag.to_string(), pos: text.len() }),
+        }
+        rest = &after[j + 1..];
+    }
+    text.push_str(rest);
+    // X holes: every token boundary inside a region, except between two adjacent punctuation tokens
+    for (lo, hi) in &regions {
+        let toks: Vec<Tok> = lex(&text[*lo..*hi]);
+        let mut pos = *lo;
+        let mut prev: Option<(&Tok, usize)> = None; // (token, end)
+        for t in &toks {
+            let end = pos + t.text.len();
+            if t.class != TokClass::Ws {
+                if let Some((p, pend)) = prev {
+                    let adjacent = pend == pos;
+                    if !(adjacent && p.class == TokClass::Punct && t.class == TokClass::Punct) {
+                        holes.push(Hole { tag: "X".into(), pos: pend });
+                    }
+                }
+                prev = Some((t, end));
+            }
+            pos = end;
+        }
+    }
+    holes.sort_by_key(|h| h.pos);
+    Template { name, text, holes, regions }
+}
+
+fn templates() -> Vec<Template> {
+    TEMPLATES.iter().map(|(n, t)| parse_template(n, t)).collect()
+}
+
+const STYLES: &[&str] = &["L", "B", "BM", "LL", "LB", "BL", "BB"];
+const GEN_WIDTHS: &[usize] = &[20, 25, 30, 35, 40, 50, 60, 80, 100, 200];
+const GEN_OPTS: &[(&str, &[(&str, &str)])] = &[
+    ("base", &[]),
+    ("wrap", &[("wrap_comments", "true")]),
+    ("norm", &[("normalize_comments", "true")]),
+    ("wrapnorm", &[("wrap_comments", "true"), ("normalize_comments", "true")]),
+    ("eou", &[("error_on_unformatted", "true")]),
+    ("visual", &[("indent_style", "Visual")]),
+    ("params-vertical", &[("fn_params_layout", "Vertical")]),
+    ("params-compressed", &[("fn_params_layout", "Compressed")]),
+    ("comma-always", &[("trailing_comma", "Always")]),
+    ("comma-never", &[("trailing_comma", "Never")]),
+    ("brace-next", &[("brace_style", "AlwaysNextLine")]),
+    ("cbrace-next", &[("control_brace_style", "AlwaysNextLine")]),
+    ("armblocks-off", &[("match_arm_blocks", "false")]),
+    ("matchcomma", &[("match_block_trailing_comma", "true")]),
+    ("align20", &[("struct_field_align_threshold", "20"), ("enum_discrim_align_threshold", "20")]),
+    ("tabs", &[("hard_tabs", "true")]),
+    ("tab2", &[("tab_spaces", "2")]),
+    ("heur-max", &[("use_small_heuristics", "Max")]),
+    ("heur-off", &[("use_small_heuristics", "Off")]),
+    ("fn-single", &[("fn_single_line", "true")]),
+    ("lit-multi", &[("struct_lit_single_line", "false")]),
+    ("empty-multi", &[("empty_item_single_line", "false")]),
+    ("overflow-delim", &[("overflow_delimited_expr", "true")]),
+    ("ed2015", &[("style_edition", "2015")]),
+    ("ed2024", &[("style_edition", "2024")]),
+    ("reorder-impl", &[("reorder_impl_items", "true")]),
+    ("blank0", &[("blank_lines_upper_bound", "0")]),
+    ("crlf", &[("newline_style", "Windows")]),
+    ("force-multi", &[("force_multiline_blocks", "true")]),
+    ("semi-off", &[("trailing_semicolon", "false")]),
+];
+
+fn opt_cfg(name: &str) -> Vec<(String, String)> {
+    GEN_OPTS.iter().find(|(n, _)| *n == name).map(|(_, kv)| kv.iter().map(|(k, v)| (k.to_string(), v.to_string())).collect()).unwrap_or_default()
+}
+
+fn rewriting(cfg: &[(String, String)]) -> bool {
+    cfg_get(cfg, "wrap_comments") == Some("true") || cfg_get(cfg, "normalize_comments") == Some("true")
+}
+
+/// the comment text number `k` of a program (unique marker first)
+fn comment_body(k: usize) -> String {
+    format!("c03m{} alpha{} beta gamma", k, k)
+}
+
+fn line_c(k: usize) -> String {
+    format!("// {}", comment_body(k))
+}
+fn block_c(k: usize) -> String {
+    format!("/* {} */", comment_body(k))
+}
+
+/// The template with the comment(s) of `style` put into `hole`.
+fn render(t: &Template, hole: &Hole, style: &str) -> String {
+    let text = &t.text;
+    let line_start = text[..hole.pos].rfind('\n').map(|i| i + 1).unwrap_or(0);
+    let indent: String = text[line_start..].chars().take_while(|c| *c == ' ').collect();
+    let mode = match hole.tag.as_bytes().get(1) {
+        Some(b'B') | Some(b'E') => "own",
+        Some(b'T') => "trail",
+        _ => "inline", // ?I ?L X
+    };
+    let multi = |k: usize, ind: &str| format!("/* c03m{} alpha{}\n{} * beta gamma\n{} */", k, k, ind, ind);
+    let parts: Vec<String> = match style {
+        "L" => vec![line_c(1)],
+        "B" => vec![block_c(1)],
+        "BM" => vec![multi(1, &indent)],
+        "LL" => vec![line_c(1), line_c(2)],
+        "LB" => vec![line_c(1), block_c(2)],
+        "BL" => vec![block_c(1), line_c(2)],
+        "BB" => vec![block_c(1), block_c(2)],
+        _ => unreachable!(),
+    };
+    let mut ins = String::new();
+    match mode {
+        "own" => {
+            // each comment on its own line, the element follows on the next line at the same indent
+            for p in &parts {
+                ins.push_str(p);
+                ins.push('\n');
+                ins.push_str(&indent);
+            }
+        }
+        "trail" => {
+            // after the element, before the newline that follows in the template
+            for (i, p) in parts.iter().enumerate() {
+                ins.push(' ');
+                ins.push_str(p);
+                if p.starts_with("//") && i + 1 < parts.len() {
+                    ins.push('\n');
+                    ins.push_str(&indent);
+                }
+            }
+            // a line comment must end its line: the template has the newline right after a ?T hole
+        }
+        _ => {
+            let deeper = format!("{}    ", indent);
+            for p in &parts {
+                ins.push(' ');
+                ins.push_str(p);
+                if p.starts_with("//") {
+                    ins.push('\n');
+                    ins.push_str(&deeper);
+                } else {
+                    ins.push(' ');
+                }
+            }
+        }
+    }
+    format!("{}{}{}", &text[..hole.pos], ins, &text[hole.pos..])
+}
+
+/// the non-doc comment tokens of a text (rustc_lexer)
+fn nondoc_comments(src: &str) -> Vec<String> {
+    lex(src).into_iter().filter(|t| matches!(t.class, TokClass::LineComment { doc: false } | TokClass::BlockComment { doc: false, .. })).map(|t| t.text).collect()
+}
+
+#[derive(Clone)]
+struct Elem {
+    id: String,
+    src: String,
+    cfg: Vec<(String, String)>,
+    /// ordered comparison (generated programs) or multiset (fixtures, where items may be reordered)
+    ordered: bool,
+    /// for X holes: the source text from the token before the comment to the token after it
+    context: Option<String>,
+}
+
+fn gen_elem(t: &Template, hi: usize, style: &str, width: usize, opt: &str) -> Elem {
+    let h = &t.holes[hi];
+    let src = render(t, h, style);
+    let mut cfg = opt_cfg(opt);
+    cfg.push(("max_width".into(), width.to_string()));
+    let context = if h.tag == "X" {
+        // previous token start .. next token end, in the rendered text
+        let added = src.len() - t.text.len();
+        let before = &t.text[..h.pos];
+        let toks = lex(before);
+        let mut start = h.pos;
+        if let Some(last) = toks.iter().rev().find(|x| x.class != TokClass::Ws) {
+            start = before.rfind(last.text.as_str()).unwrap_or(h.pos);
+        }
+        let after = &t.text[h.pos..];
+        let toks2 = lex(after);
+        let mut end = h.pos;
+        let mut p = h.pos;
+        for x in &toks2 {
+            p += x.text.len();
+            if x.class != TokClass::Ws {
+                end = p;
+                break;
+            }
+        }
+        Some(src[start..end + added].to_string())
+    } else {
+        None
+    };
+    Elem { id: format!("g|{}|h{}:{}|{}|w{}|{}", t.name, hi, h.tag, style, width, opt), src, cfg, ordered: true, context }
+}
+
+/// every element of the generated universe
+fn gen_universe(ts: &[Template]) -> Vec<Elem> {
+    let mut v = vec![];
+    for t in ts {
+        for hi in 0..t.holes.len() {
+            for style in STYLES {
+                for w in GEN_WIDTHS {
+                    for (opt, _) in GEN_OPTS {
+                        v.push(gen_elem(t, hi, style, *w, opt));
+                    }
+                }
+            }
+        }
+    }
+    v
+}
+
+const FIX_WIDTHS: &[usize] = &[20, 37, 50, 60, 80, 137, 200];
+const FIX_OPTS: &[(&str, &str)] = &[
+    ("wrap_comments", "true"), ("normalize_comments", "true"), ("indent_style", "Visual"), ("hard_tabs", "true"), ("tab_spaces", "2"), ("use_small_heuristics", "Max"), ("use_small_heuristics", "Off"),
+    ("fn_params_layout", "Vertical"), ("fn_params_layout", "Compressed"), ("trailing_comma", "Never"), ("trailing_comma", "Always"), ("brace_style", "AlwaysNextLine"), ("control_brace_style", "AlwaysNextLine"),
+    ("match_arm_blocks", "false"), ("struct_field_align_threshold", "20"), ("style_edition", "2024"), ("style_edition", "2015"), ("reorder_impl_items", "true"), ("error_on_unformatted", "true"), ("fn_single_line", "true"),
+];
+
+fn fixture_universe(progs: &[corpus::Program]) -> Vec<Elem> {
+    let mut v = vec![];
+    for p in progs {
+        if p.src.trim().is_empty() || p.src.len() > 60000 {
+            continue;
+        }
+        if nondoc_comments(&p.src).is_empty() {
+            continue;
+        }
+        v.push(Elem { id: format!("f|{}|base", p.name), src: p.src.clone(), cfg: p.cfg.clone(), ordered: false, context: None });
+        for w in FIX_WIDTHS {
+            v.push(Elem { id: format!("f|{}|w{}", p.name, w), src: p.src.clone(), cfg: merge_cfg(&p.cfg, &[("max_width".into(), w.to_string())]), ordered: false, context: None });
+        }
+        for (k, val) in FIX_OPTS {
+            if cfg_get(&p.cfg, k) == Some(*val) {
+                continue;
+            }
+            v.push(Elem { id: format!("f|{}|{}={}", p.name, k, val), src: p.src.clone(), cfg: merge_cfg(&p.cfg, &[(k.to_string(), val.to_string())]), ordered: false, context: None });
+        }
+    }
+    v
+}
+
+#[derive(Debug, Clone, PartialEq)]
+enum Verdict {
+    /// the run is judged: request for the Lean oracle and what the harness itself saw
+    Judged { request: String, lost_reported: bool, context_kept: bool },
+    NotJudged(&'static str),
+}
+
+fn enc_texts(v: &[String]) -> String {
+    enc_list(v)
+}
+
+fn judge(e: &Elem, r: &pool::FmtOut) -> Verdict {
+    match &r.status {
+        Status::Ok => {}
+        Status::Timeout => return Verdict::NotJudged("timeout"),
+        Status::Err(_) => return Verdict::NotJudged("error-returned"),
+        Status::Panic(_) | Status::Died(_) => return Verdict::NotJudged("crash(C16)"),
+        Status::BadConfig(_) => return Verdict::NotJudged("bad-config"),
+        Status::Infra(_) => return Verdict::NotJudged("infra"),
+    }
+    if r.flags[0] || r.flags[1] {
+        return Verdict::NotJudged("parse-or-operational-error");
+    }
+    if r.out.is_empty() && !e.src.trim().is_empty() {
+        return Verdict::NotJudged("no-output");
+    }
+    let ins = nondoc_comments(&e.src);
+    let outs = nondoc_comments(&r.out);
+    let op = if rewriting(&e.cfg) { "cm.words" } else { "cm.preserved" };
+    let mode = if e.ordered { "o" } else { "m" };
+    let lost_reported = r.entries.iter().any(|x| x.kind == "LostComment");
+    let context_kept = match &e.context {
+        Some(c) => r.out.contains(c.as_str()),
+        None => true,
+    };
+    Verdict::Judged { request: format!("{} {} {} {}", op, mode, enc_texts(&ins), enc_texts(&outs)), lost_reported, context_kept }
+}
+
+fn load_dirty() -> HashSet<String> {
+    let text = std::fs::read_to_string("corpus/c03_dirty.txt").or_else(|_| std::fs::read_to_string("/verif/corpus/c03_dirty.txt")).unwrap_or_default();
+    text.lines().map(|l| l.trim().to_string()).filter(|l| !l.is_empty() && !l.starts_with('#')).collect()
+}
+
+/// runs the elements and the Lean oracle directly (measurement mode): ids of the failing ones
+fn measure(elems: &[Elem], timeout: Duration) -> Vec<(String, String)> {
+    let mut bad = vec![];
+    for chunk in elems.chunks(20000) {
+        let jobs_v: Vec<Job> = chunk.iter().map(|e| Job { src: e.src.clone(), cfg: e.cfg.clone(), file_lines: None }).collect();
+        let res = pool::run_jobs(&jobs_v, jobs(), timeout);
+        let mut reqs = vec![];
+        let mut idx = vec![];
+        for (i, (e, r)) in chunk.iter().zip(res.iter()).enumerate() {
+            if let Verdict::Judged { request, lost_reported, context_kept } = judge(e, r) {
+                reqs.push(request);
+                idx.push(i);
+                if lost_reported && !context_kept {
+                    bad.push((e.id.clone(), "lost-reported-but-context-changed".to_string()));
+                }
+            }
+        }
+        let ans = run_model(&reqs, jobs());
+        for (k, a) in ans.iter().enumerate() {
+            if a != "ok" {
+                bad.push((chunk[idx[k]].id.clone(), a.clone()));
+            }
+        }
+    }
+    bad
+}
+
+fn hole_key(id: &str) -> String {
+    // g|<template>|h<idx>:<tag>|<style>|w..|opt  ->  <template>/<tag>/h<idx>
+    let p: Vec<&str> = id.split('|').collect();
+    if p.len() >= 3 && p[0] == "g" {
+        let (h, tag) = p[2].split_once(':').unwrap_or((p[2], "?"));
+        format!("{}/{}/{}", p[1], tag, h)
+    } else if p.len() >= 2 {
+        p[1].to_string()
+    } else {
+        id.to_string()
+    }
+}
+
+fn part_search(o: &mut Outcome, rng: &mut Rng, tier: &str) {
+    let thorough = tier == "thorough";
+    let ts = templates();
+    let progs = corpus::programs(&["tests/target", "tests/source"]);
+    let dirty = load_dirty();
+    let timeout = Duration::from_secs(if thorough { 30 } else { 10 });
+    if tier == "sweep-gen" || tier == "sweep-fix" {
+        // measurement mode (not a registered check): prints every failing element of the universe
+        let all = if tier == "sweep-gen" { gen_universe(&ts) } else { fixture_universe(&progs) };
+        eprintln!("{} elements", all.len());
+        for (id, why) in measure(&all, Duration::from_secs(30)) {
+            println!("{}\t{}", id, why);
+        }
+        return;
+    }
+    let nholes: usize = ts.iter().map(|t| t.holes.len()).sum();
+    o.count_n("gen:holes", nholes as u64);
+    o.count_n("gen:universe", (nholes * STYLES.len() * GEN_WIDTHS.len() * GEN_OPTS.len()) as u64);
+    // the elements of this run: every (hole, style) with `reps` seeded (width, option set) choices
+    let reps = if thorough { 24 } else { 2 };
+    let mut chosen: Vec<Elem> = vec![];
+    let mut seen: HashSet<String> = HashSet::new();
+    for t in &ts {
+        for hi in 0..t.holes.len() {
+            for style in STYLES {
+                for _ in 0..reps {
+                    let w = *rng.pick(GEN_WIDTHS);
+                    let opt = rng.pick(GEN_OPTS).0;
+                    let e = gen_elem(t, hi, style, w, opt);
+                    if !dirty.contains(&e.id) && seen.insert(e.id.clone()) {
+                        chosen.push(e);
+                    }
+                }
+            }
+        }
+    }
+    let fix = fixture_universe(&progs);
+    o.count_n("fix:universe", fix.len() as u64);
+    o.count_n("dirty:listed", dirty.len() as u64);
+    let fix_clean: Vec<&Elem> = fix.iter().filter(|e| !dirty.contains(&e.id)).collect();
+    if thorough {
+        chosen.extend(fix_clean.iter().map(|e| (*e).clone()));
+    } else {
+        // every base element + a seeded sample of the variants
+        for e in fix_clean.iter().filter(|e| e.id.ends_with("|base")) {
+            chosen.push((*e).clone());
+        }
+        let rest: Vec<&&Elem> = fix_clean.iter().filter(|e| !e.id.ends_with("|base")).collect();
+        for _ in 0..1200usize.min(rest.len()) {
+            let e = (**rng.pick(&rest)).clone();
+            if seen.insert(e.id.clone()) {
+                chosen.push(e);
+            }
+        }
+    }
+    let jobs_v: Vec<Job> = chosen.iter().map(|e| Job { src: e.src.clone(), cfg: e.cfg.clone(), file_lines: None }).collect();
+    let res = pool::run_jobs(&jobs_v, jobs(), timeout);
+    for (e, r) in chosen.iter().zip(res.iter()) {
+        let fam = if e.id.starts_with("g|") { "gen" } else { "fix" };
+        match judge(e, r) {
+            Verdict::Judged { request, lost_reported, context_kept } => {
+                o.count(&format!("{}:judged", fam));
+                let changed = r.out != e.src;
+                o.push("oracle", if request.starts_with("cm.words") { "cm.words(real)" } else { "cm.preserved(real)" }, request, "ok".into(), format!("{} [{}]", e.id, cfg_text(&e.cfg)), changed);
+                if lost_reported {
+                    o.count(&format!("{}:lost-comment-reported", fam));
+                    o.direct_evals += 1;
+                    if !context_kept {
+                        o.direct_failures.push(json!({"sig": format!("c03:lost-comment-reported-but-rewritten:{}", hole_key(&e.id)), "what": "the report carries LostComment but the tokens around the comment were not left as written", "case": e.id, "config": cfg_text(&e.cfg), "src": e.src, "out": r.out}));
+                    }
+                }
+            }
+            Verdict::NotJudged(why) => o.count(&format!("{}:not-judged:{}", fam, why)),
+        }
+    }
+    if let Some(e) = chosen.first() {
+        o.sample(json!({"case": e.id, "config": cfg_text(&e.cfg), "src": e.src}));
+    }
+    // the listed dirty elements as enumerated probes, grouped by hole / fixture
+    let mut dirty_elems: Vec<Elem> = vec![];
+    for id in &dirty {
+        let p: Vec<&str> = id.split('|').collect();
+        if p.len() == 6 && p[0] == "g" {
+            if let Some(t) = ts.iter().find(|t| t.name == p[1]) {
+                let hi: usize = p[2].split(':').next().unwrap_or("")[1..].parse().unwrap_or(usize::MAX);
+                let w: usize = p[4][1..].parse().unwrap_or(0);
+                if hi < t.holes.len() && STYLES.contains(&p[3]) && w > 0 {
+                    let e = gen_elem(t, hi, p[3], w, p[5]);
+                    if e.id == *id {
+                        dirty_elems.push(e);
+                    }
+                }
+            }
+        } else if let Some(e) = fix.iter().find(|e| e.id == *id) {
+            dirty_elems.push(e.clone());
+        }
+    }
+    dirty_elems.sort_by(|a, b| a.id.cmp(&b.id));
+    // quick: at most 12 listed elements per group
+    let mut per: BTreeMap<String, Vec<Elem>> = BTreeMap::new();
+    for e in dirty_elems {
+        let k = probe_group(&e.id);
+        let v = per.entry(k).or_default();
+        if thorough || v.len() < 12 {
+            v.push(e);
+        }
+    }
+    let flat: Vec<Elem> = per.values().flatten().cloned().collect();
+    let bad: HashSet<String> = measure(&flat, timeout).into_iter().map(|(id, _)| id).collect();
+    for (k, v) in &per {
+        let failing: Vec<&Elem> = v.iter().filter(|e| bad.contains(&e.id)).collect();
+        o.probes.push(json!({"id": format!("C03-{}", k), "fails": !failing.is_empty(), "what": format!("{} of {} listed elements run; first failing: {}", failing.len(), v.len(), failing.first().map(|e| e.id.clone()).unwrap_or_default()), "detail": failing.first().map(|e| json!({"src": e.src, "config": cfg_text(&e.cfg)}))}));
+    }
+}
+
+/// the probe (= known finding) a listed dirty element belongs to
+fn probe_group(id: &str) -> String {
+    let p: Vec<&str> = id.split('|').collect();
+    if p[0] == "g" && p.len() == 6 {
+        let tag = p[2].split(':').nth(1).unwrap_or("?");
+        if p[3] == "BL" && (p[5] == "wrap" || p[5] == "wrapnorm") {
+            // W2: `/* a */ // b` on one line is rewritten as one block comment by wrap_comments
+            "W2".to_string()
+        } else {
+            format!("gen-{}-{}", p[1], tag)
+        }
+    } else {
+        "FX".to_string()
+    }
+}
+
 pub fn run(tier: &str, seed: u64, out: &Path) -> i32 {
     if let Ok(d) = std::env::var("C03_DEBUG_RECOVER") {
         // debugging aid: one call of the recover hook with the default panic hook
@@ -439,14 +947,35 @@ pub fn run(tier: &str, seed: u64, out: &Path) -> i32 {
         eprintln!("{:?}", r);
         return 0;
     }
+    if let Ok(id) = std::env::var("C03_SHOW") {
+        // debugging aid: prints one generated element and what the formatter makes of it
+        let ts = templates();
+        let p: Vec<&str> = id.split('|').collect();
+        let t = ts.iter().find(|t| t.name == p[1]).expect("template");
+        let hi: usize = p[2].split(':').next().unwrap()[1..].parse().unwrap();
+        let e = gen_elem(t, hi, p[3], p[4][1..].parse().unwrap(), p[5]);
+        pool::install_panic_hook();
+        let r = pool::format_here(&Job { src: e.src.clone(), cfg: e.cfg.clone(), file_lines: None });
+        println!("--- source [{}]\n{}--- output status={:?} flags={:?} entries={:?}\n{}", cfg_text(&e.cfg), e.src, r.status, r.flags, r.entries.iter().map(|x| (x.line, x.kind.clone())).collect::<Vec<_>>(), r.out);
+        return 0;
+    }
     pool::install_panic_hook();
     let mut o = Outcome::new("C03", tier, seed);
     let thorough = tier == "thorough";
     let mut rng = Rng::new(seed ^ 0xc03);
     let which = std::env::var("C03_PARTS").unwrap_or_else(|_| "corr,search".into());
-    if which.contains("corr") {
-        part_corr(&mut o, &mut rng.fork(), thorough);
+    let mut r1 = rng.fork();
+    let mut r2 = rng.fork();
+    if tier.starts_with("sweep") {
+        part_search(&mut o, &mut r2, tier);
+        return 0;
     }
-    let _ = (json!({}), BTreeMap::<String, u64>::new(), HashSet::<String>::new(), Duration::from_secs(1), Status::Ok, Job { src: String::new(), cfg: vec![], file_lines: None });
+    if which.contains("corr") {
+        part_corr(&mut o, &mut r1, thorough);
+    }
+    if which.contains("search") {
+        part_search(&mut o, &mut r2, tier);
+    }
+    o.notes.push("generated universe = templates x holes x 7 comment styles x 10 widths x 30 option sets, every (hole, style) is run with 2 (quick) / 24 (thorough) seeded (width, option set) choices; fixture universe = fixtures with a non-doc comment x {base, 7 widths, 20 option singles}; elements listed in corpus/c03_dirty.txt run as probes".into());
     o.finish(out, jobs())
 }
